@@ -85,6 +85,7 @@ class TimeProxy:
         self._log = log
 
     def time(self):
+        self._log.sync('now')
         v = self._t.time()
         self._log.add('now', v=self._log.us(v))
         return v
@@ -145,15 +146,17 @@ def run_case(case, policy=None, max_steps=20000):
             def on_isconn(v, err=None):
                 if err is None:
                     log.add('isconn', v=bool(v))
+                    log.sync('isconn')      # the new value is visible from here on: other threads may act on it
             io.addCallback('is_connected', on_isconn)
             for name in case.get('callbacks') or ():
                 keep = not name.startswith('once')      # a callback returning False is removed after its first run
                 io.registerReconnectCallback(
-                    name, (lambda name=name, keep=keep: bool(log.add('cb', name=name, keep=keep)) and keep))
+                    name, (lambda name=name, keep=keep: log.sync('cb') or (bool(log.add('cb', name=name, keep=keep)) and keep)))
             real_register = io.registerReconnectCallback
 
             def register(name, func):       # callbacks registered later (the poll thread's trigger_polls) are logged too
                 def logged():
+                    log.sync('cb')
                     r = func()
                     log.add('cb', name=name, keep=bool(r))
                     return r
@@ -162,6 +165,7 @@ def run_case(case, policy=None, max_steps=20000):
             real_check = io.check_connection
 
             def check_connection():
+                log.sync('chk')
                 log.add('chk', v=bool(io.is_connected))
                 return real_check()
             io.check_connection = check_connection
@@ -194,12 +198,14 @@ def run_case(case, policy=None, max_steps=20000):
                         s.time.sleep(op[1])
                         continue
                     kinds[log.who()] = op[0]
+                    log.sync('call')
                     log.add('call', i=i, op=op)
                     try:
                         r = do(op)
-                        log.add('ret', i=i, r=r)
                     except Exception as e:      # the error class is the observation
-                        log.add('ret', i=i, r=err_class(e))
+                        r = err_class(e)
+                    log.sync('ret')
+                    log.add('ret', i=i, r=r)
                     kinds[log.who()] = None
 
             for n, ops in enumerate(case['callers']):
